@@ -764,6 +764,9 @@ func gen(r *hx.Rng, n int, tier string) []string {
 	var pool []genKey // keys generated so far, reused for keyset cases
 	add := func(l string) { lines = append(lines, l) }
 	genfail := func(what string) { add("GENFAIL|" + strings.ReplaceAll(what, "|", "/")) }
+	// a handle holding a key its serializer refuses: every writer must fail or write something readable
+	add("U|jwthmac|0")
+	add("U|jwthmac|1")
 
 	makeKey := func(url string, id uint32) (genKey, bool) {
 		var t *tinkpb.KeyTemplate
